@@ -14,7 +14,12 @@ and the returned assignment is compared with that matrix's optimum, certified th
 optimality is a parameter of the theorems, so it is exercised on every run instead of being proved).
 On a disagreement the specification itself is evaluated on the real code's input (Lean `spec.ws`, an
 independent Python enumeration of partial matchings, a certified optimum of a matrix built from the
-definition for large sizes) to decide whether the *property* fails there.
+definition for large sizes) to decide whether the *property* fails there.  After 150 disagreements on which the
+property held, the specification is evaluated only where the verdict is in doubt (raise / value differs from the
+certified optimum / missing warning); the search goes on through all remaining (larger) cases.
+Verdict (what makes a FAILING INPUT): on inputs with finite births and deaths finite or +inf the call returns, the
+value is within tolerance of the specification value, and SOME warning (any text/category) was raised when a +inf
+death was present.  NaN / -inf deaths are compared with the model only.
 """
 import math
 import warnings
@@ -29,16 +34,21 @@ from ..common import enc, ask, HarnessError
 LEVEL = "proof"
 RULE = ("pairs of diagrams from one PRNG: sizes 0-7 mostly, 0-16 and 0-40 fewer (quick) / many more of each (thorough); coordinates from lattice/half/"
         "dyadic/decimal/uniform modes (lattice modes force ties), b <= d, repeated points (p=0.2), diagonal points, points "
-        "shared between the two diagrams, non-finite deaths (+inf mostly, -inf/NaN rarely; sometimes a whole side), empty "
-        "sides given as [] or a (0,2) array; 8% integer-valued diagrams handed over as int32/int16/uint8/int64 arrays or Python-int lists whose squared "
+        "shared between the two diagrams, non-finite deaths (+inf mostly; -inf/NaN rarely and then compared with the model only; sometimes a whole side), empty "
+        "sides in every accepted form ([], [[]], np.zeros((0,2)), np.array([]), np.array([[]])); 8% integer-valued diagrams handed over as int32/int16/uint8/int64 arrays or Python-int lists whose squared "
         "coordinate differences leave the dtype's range (and integer-valued ordinary cases in those representations); 6% 'large offset, tiny spread' pairs "
         "(a diagram and a perturbation of it by delta, both translated by T = 1e3..1e6 feature sizes, delta/T ~ 1e-8); a global power-of-two scale 2^-40..2^40 (on top of the per-coordinate 2^-20..2^20 of the dyadic mode); non-trivial = both sides keep a finite "
         "point and there are >= 3 finite points in total; distinct by digest of the pair")
 ASSUMPTIONS = [
-    "diagrams are (n,2): births finite, deaths finite or non-finite (dropped with a warning); extra columns and non-finite births are outside the model",
+    "diagrams are (n,2): births finite, deaths finite or +inf (dropped with a warning); the code and the model treat NaN / -inf deaths like +inf, "
+    "but the statement says 'infinite death': such inputs are compared with the model only, never judged; extra columns and non-finite births are outside the model",
+    "warning clause: SOME warning (any wording, any category) is raised during the call when a +inf death is present; no clause forbids other "
+    "warnings; which of the code's two messages appeared is compared with the model's flags as correspondence only",
     "the Euclidean distances are np.sqrt(np.sum((S[:,None,:]-T[None,:,:])**2, axis=2)) — coordinate differences first (since /repo fix "
     "6c9bac1; sklearn's expanded formula |x|^2-2xy+|y|^2 is no longer used) — i.e. the model's sqrt(dx*dx+dy*dy) operation by operation; "
-    "values are compared with tolerance 1e-9*scale (scale = largest |coordinate| times the number of summed rows)",
+    "values are compared with tolerance min(1e-9*scale, 1e-9*|reference value| + 32*eps*scale) (scale = largest |coordinate| times the number "
+    "of summed rows; the second term is the rounding the rotation leaves in each diagonal-cost entry) — on 'large offset, tiny spread' inputs "
+    "that is ~1e-6 of the value instead of 20-100% of it",
     "inputs are converted with dtype=float (/repo fix dcbfa71), so the representation (list, float/integer array, Python ints) does not matter: "
     "the model is dtype-free and receives the same numbers as exact rationals",
     "np.sum / BLAS dot agree with the model's left fold and b*(-sp)+d*cp up to rounding (inside the same tolerance)",
@@ -97,7 +107,7 @@ def gen_int_pair(ctx, nmax):
         out[1] = (out[1] + [list(p) for p in out[0] if r.random() < 0.5])[:max(nmax, 1)]
     kinds = [kind, kind] if r.random() < 0.8 else [kind, r.choice(["array", "list", "int64"])]
     ctx.count("gen:integer_representation")
-    return {"dgm1": out[0], "dgm2": out[1], "kinds": kinds, "mode": "int", "scale_exp": 0}
+    return {"dgm1": out[0], "dgm2": out[1], "kinds": kinds, "mode": "int", "scale_exp": 0, "eforms": [r.randint(0, 5), r.randint(0, 5)]}
 
 
 def offset_family(ctx, base, k, mode):
@@ -198,7 +208,7 @@ def gen_pair(ctx, nmax):
             ok = [kd for kd in INT_KINDS if kind_ok(d, kd)]
             if ok:
                 kinds[i] = r.choice(ok) if i == 0 or kinds[0] not in ok or r.random() < 0.4 else kinds[0]
-    return {"dgm1": d1, "dgm2": d2, "kinds": list(kinds), "mode": mode, "scale_exp": k}
+    return {"dgm1": d1, "dgm2": d2, "kinds": list(kinds), "mode": mode, "scale_exp": k, "eforms": [r.randint(0, 5), r.randint(0, 5)]}
 
 
 INT_DTYPE_RANGE = {"int32": (-2 ** 31, 2 ** 31 - 1), "int16": (-2 ** 15, 2 ** 15 - 1), "uint8": (0, 255),
@@ -213,10 +223,17 @@ def kind_ok(d, kind):
     return all(math.isfinite(x) and x == math.floor(x) and lo <= x <= hi for p in d for x in p)
 
 
-def as_arg(d, kind):
-    """the argument handed to the real function; the model never sees the representation"""
+def as_arg(d, kind, eform=0):
+    """the argument handed to the real function; the model never sees the representation.  An EMPTY diagram is written in
+    every form the functions accept: [] / [[]] for the list kinds, np.zeros((0,2)) / np.array([]) / np.array([[]]) for
+    the array kinds (`eform` selects; 0 = [] resp. a (0,2) array)"""
     if kind not in ("list", "array") and not kind_ok(d, kind):
         kind = "array"
+    if not d:
+        if kind in ("list", "pyint"):
+            return [[], [[]]][eform % 2]
+        dt = float if kind == "array" else getattr(np, kind)
+        return [np.zeros((0, 2), dtype=dt), np.array([], dtype=dt), np.array([[]], dtype=dt)][eform % 3]
     if kind == "array":
         return np.array(d, dtype=float).reshape(-1, 2)
     if kind == "list":
@@ -226,11 +243,17 @@ def as_arg(d, kind):
     return np.array(d, dtype=float).reshape(-1, 2).astype(getattr(np, kind))
 
 
+def case_args(case):
+    ef = case.get("eforms", [0, 0])
+    return as_arg(case["dgm1"], case["kinds"][0], ef[0]), as_arg(case["dgm2"], case["kinds"][1], ef[1])
+
+
 def run_code(case):
-    """the real function: ('ok', value, warn1, warn2) or ('err', kind, warn1, warn2)"""
+    """the real function: ('ok', value, warn1, warn2, anywarn) or ('err', kind, warn1, warn2, anywarn).  warn1/warn2: a
+    warning naming dgm1/dgm2 was seen (compared with the MODEL's flags only — wording is not part of the property);
+    anywarn: some warning, whatever its text or category, was raised during the call (what the statement asks for)"""
     ws = common.pm("wasserstein").wasserstein
-    a1 = as_arg(case["dgm1"], case["kinds"][0])
-    a2 = as_arg(case["dgm2"], case["kinds"][1])
+    a1, a2 = case_args(case)
     with warnings.catch_warnings(record=True) as w:
         warnings.simplefilter("always")
         with np.errstate(all="ignore"):
@@ -241,7 +264,7 @@ def run_code(case):
             except Exception as e:      # the code's own error kinds are part of its behaviour
                 st, v = "err", type(e).__name__
     msgs = [str(x.message) for x in w]
-    return st, v, any("dgm1" in m for m in msgs), any("dgm2" in m for m in msgs)
+    return st, v, any("dgm1" in m for m in msgs), any("dgm2" in m for m in msgs), len(w) > 0
 
 
 class _OptProxy:
@@ -288,12 +311,31 @@ def scale_of(case):
     return m * rows
 
 
-def agree(a, b, scale):
+EPS = 2.0 ** -52
+ROUND = 32 * EPS      # per row: rotation b*(-sp)+d*cp, sqrt, the sum — a few ulp of the largest |coordinate| each
+
+
+def tol_for(case, ref):
+    """tolerance for comparing a Wasserstein value with the reference value `ref`: 1e-9 relative to the VALUE plus a
+    rounding-level term 32*eps * largest |coordinate| * rows (the absolute error the rotation by cos/sin(pi/4) leaves
+    in every diagonal-cost entry), never more than the former 1e-9 * largest |coordinate| * rows.  On 'large offset, tiny
+    spread' inputs (values ~ 1e-8 * offset) this is ~1e-6 of the value where 1e-9 * offset * rows was 20-100% of it."""
+    scale = scale_of(case)
+    ref = abs(float(ref))
+    if not math.isfinite(ref):
+        return TOL * scale
+    return min(TOL * scale, TOL * ref + ROUND * scale)
+
+
+def agree(a, b, scale, case=None):
+    """a: value under test, b: reference.  With `case` the tolerance is tol_for(case, b); without, 1e-9*scale"""
     a, b = float(a), float(b)
     if math.isnan(a) or math.isnan(b) or math.isinf(a) or math.isinf(b):
         return False
     if scale == 0.0:        # every coordinate is 0 (or both sides empty): the value is 0 up to the code's own constants
         return abs(a - b) <= 1e-12
+    if case is not None:
+        return abs(a - b) <= tol_for(case, b)
     return abs(a - b) <= TOL * scale
 
 
@@ -544,16 +586,38 @@ def spec_value(case):
     return float(val), w1, w2, "certified optimum (Lean cert.dual) of the matrix built from the definition"
 
 
+def outside_quantifier(case):
+    """NaN / -inf deaths or non-finite births: the statement speaks of finite points and of 'infinite death' only"""
+    return any(not math.isfinite(p[0]) or math.isnan(p[1]) or p[1] == -math.inf for d in (case["dgm1"], case["dgm2"]) for p in d)
+
+
+def wants_warning(case):
+    return any(p[1] == math.inf for d in (case["dgm1"], case["dgm2"]) for p in d)
+
+
+def cheap_verdict_fails(case, code, certified):
+    """without evaluating the specification: could the property fail here?  (the certified optimum of the model's matrix
+    IS the specification value by theorem wasserstein_eq_spec, up to rounding)"""
+    if outside_quantifier(case):
+        return False
+    st, v = code[0], code[1]
+    return st != "ok" or not agree(v, certified, scale_of(case), case) or (wants_warning(case) and not code[4])
+
+
 def property_fails(case, code):
-    """does the *property* fail on the real code for this input?  (fails?, description)"""
-    st, v, c1, c2 = code
+    """does the *property* fail on the real code for this input?  (fails?, description).  Only for inputs inside the
+    quantifier; the warning clause is 'some warning (any text, any category) when a +inf death is dropped'"""
+    st, v = code[0], code[1]
+    if outside_quantifier(case):
+        return False, ("the input has a NaN / -inf death: outside 'finite points / infinite death', compared with the model "
+                       "only (code: %r)" % (code[:4],))
     val, w1, w2, how = spec_value(case)
     if st != "ok":
         return True, "the code raised %s; specification value %r by %s" % (v, val, how)
-    if (c1, c2) != (w1, w2):
-        return True, "warnings (dgm1,dgm2) = %r, expected %r (a warning iff a point with non-finite death is dropped)" % ((c1, c2), (w1, w2))
-    if not agree(v, val, scale_of(case)):
-        return True, "code value %r, specification value %r by %s" % (v, val, how)
+    if wants_warning(case) and not code[4]:
+        return True, "a point with infinite death was dropped without any warning (value %r, specification %r)" % (v, val)
+    if not agree(v, val, scale_of(case), case):
+        return True, "code value %r, specification value %r by %s (tolerance %r)" % (v, val, how, tol_for(case, val))
     return False, "code value %r equals the specification value %r (%s)" % (v, val, how)
 
 
@@ -572,6 +636,12 @@ CORPUS = [
     {"dgm1": [[0.0, 4.0], [1.0, 2.0]], "dgm2": [[0.0, 4.5], [10.0, 10.5]], "kinds": ["list", "list"]},
     {"dgm1": [[0.0, 3.0 * 2.0 ** 20]], "dgm2": [[2.0 ** -20, 2.0 ** -19]], "kinds": ["list", "list"]},
     {"dgm1": [[-3.0, -1.0], [-2.0, 5.0]], "dgm2": [[-2.5, -1.0]], "kinds": ["list", "list"]},  # negative coordinates
+    # an empty diagram in every form the function accepts: [], [[]], np.zeros((0,2)), np.array([]), np.array([[]])
+    {"dgm1": [], "dgm2": [[0.0, 2.0]], "kinds": ["list", "list"], "eforms": [1, 0]},
+    {"dgm1": [[1.0, 4.0]], "dgm2": [], "kinds": ["array", "array"], "eforms": [0, 1]},
+    {"dgm1": [], "dgm2": [[1.0, 4.0], [2.0, 2.0]], "kinds": ["array", "array"], "eforms": [2, 0]},
+    {"dgm1": [], "dgm2": [], "kinds": ["array", "list"], "eforms": [2, 1]},
+    {"dgm1": [], "dgm2": [], "kinds": ["array", "array"], "eforms": [1, 2]},
 ]
 
 
@@ -668,12 +738,13 @@ def run(ctx):
 
     # 4. compare
     deferred = []
+    capped = False
     for c, code, slot, cans, claimed, obs, raw in zip(cases, codes, slots, cert_answers, claims, obs_slots, observed):
         m, n, M, N = sizes_of(c)
         ans = answers[slot["matrix"]]
         model_w = (ans[0], ans[1])
         certified = checked(cans, claimed)
-        st, v, c1, c2 = code
+        st, v, c1, c2 = code[:4]
         scale = scale_of(c)
         nontriv = m >= 1 and n >= 1 and m + n >= 3
         ctx.case({"op": "wasserstein", "dgm1": c["dgm1"], "dgm2": c["dgm2"], "kinds": c["kinds"]}, nontriv, sample_every=53)
@@ -696,7 +767,7 @@ def run(ctx):
         if st != "ok":
             problems.append(("value", "code raised %s" % v, "model certified optimum %s" % float(certified)))
         else:
-            if not agree(v, certified, scale):
+            if not agree(v, certified, scale, c):
                 problems.append(("ws.matrix+cert.dual", v, float(certified)))
             if "exh" in slot:
                 ctx.count("exhaustive_compared")
@@ -707,7 +778,7 @@ def run(ctx):
                     raise HarnessError("ws.exh and ws.matrix disagree on the warning flags")
                 if not agree(float(e[2]), certified, scale):
                     raise HarnessError("model: exhaustive optimum %r differs from certified optimum %r" % (e[2], certified))
-                if not agree(v, float(e[2]), scale):
+                if not agree(v, float(e[2]), scale, c):
                     problems.append(("ws.exh", v, float(e[2])))
         if (c1, c2) != model_w:
             problems.append(("warnings", [c1, c2], list(model_w)))
@@ -737,14 +808,23 @@ def run(ctx):
             ctx.test("lsa_contract", okc)
             if not okc:
                 problems.append(("lsa_contract", "assignment returned by scipy: rows %r cols %r" % (ri, ci), "certified optimum %s" % float(opt)))
+        if outside_quantifier(c):
+            ctx.count("nan_or_neginf_death(model comparison only)")
+        if problems and capped and not cheap_verdict_fails(c, code, certified):
+            # after the cap on specification evaluations: the value equals the certified optimum of the model's matrix
+            # (= the specification value by theorem), so the property holds here; go on to the remaining, larger, cases
+            ctx.count("correspondence_break_after_cap(value = certified optimum)")
+            problems = []
         if problems:
             fails, why = property_fails(c, code)
             op, cv, mv = problems[0]
             rcase = {"dgm1": c["dgm1"], "dgm2": c["dgm2"], "kinds": c["kinds"]}
+            if c.get("eforms") and (not c["dgm1"] or not c["dgm2"]):
+                rcase["eforms"] = c["eforms"]
             if fails:
                 ctx.violation("wasserstein is not the min-sum matching cost / warning contract: " + why, rcase, found_input=True,
                               code=[st, v, c1, c2], model={"certified_optimum": float(certified), "warnings": list(model_w)},
-                              reproduce="import persim; persim.wasserstein(%r, %r)" % (c["dgm1"], c["dgm2"]))
+                              reproduce="from numpy import *; import persim; persim.wasserstein(%r, %r)" % case_args(c))
             else:
                 # a correspondence break on an input where the property holds: keep looking for a failing input among
                 # the remaining cases (DESIGN 3.3); reported as `no-failing-input-found` only if none turns up
@@ -753,13 +833,18 @@ def run(ctx):
                     deferred.append(("code and model disagree (%s: code %s, model %s) but the property holds on this input: %s"
                                      % (op, str(cv)[:300], str(mv)[:120], why),
                                      {"correspondence": op, "line": lines[slot["matrix"]][:2000], "code": cv, "model": mv, "input": rcase}))
-            if len(ctx.violations) > 5 or ctx.counters.get("correspondence_break_property_holds", 0) >= 150:
-                break                       # (each evaluation of the specification costs driver calls)
+            if len(ctx.violations) > 5:
+                break
+            if ctx.counters.get("correspondence_break_property_holds", 0) >= 150:
+                # each evaluation of the specification costs driver calls: from here on it is evaluated only where the
+                # value/raise/warning verdict is in doubt (cheap_verdict_fails) — the search does NOT stop, the cases
+                # of 9-80 points come last
+                capped = True
     large_closed_form(ctx)
     if deferred and not any(found for _, found in ctx.violations):
         for what, rec_ in deferred:
             ctx.violation(what, rec_, found_input=False)
-    ctx.extra["tolerance"] = ("value: 1e-9 * (largest |coordinate|) * (rows of the augmented matrix); matrix entries: distance entries exact "
+    ctx.extra["tolerance"] = ("value: min(1e-9 * (largest |coordinate|) * (rows of the augmented matrix), 1e-9*|reference| + 32*eps*(largest |coordinate|)*rows); matrix entries: distance entries exact "
                               "where the arithmetic is exact, else 1e-9 relative to the entry; diagonal-cost entries 1e-9 * |coordinates of the point|")
 
 
@@ -791,7 +876,8 @@ def large_closed_form(ctx):
             if not ok:
                 ctx.violation("wasserstein of a %d-point diagram (%s) is %r, the minimum over partial matchings is %r" % (n, what, v, w),
                               {"dgm1": pts if what != "empty vs large" else [], "dgm2": [] if what == "large vs empty" else (pts if what == "empty vs large" else perm.tolist()),
-                               "kinds": ["array", "array"], "mode": "dyadic", "scale_exp": 0, "closed_form": w}, found_input=True)
+                               "kinds": ["array", "array"], "mode": "dyadic", "scale_exp": 0, "closed_form": w,
+                               "closed_form_tol": 1e-9 * 150.0 * n}, found_input=True)
                 return
 
 
@@ -806,8 +892,17 @@ def replay(ctx, rep):
     if "dgm1" not in c:
         print("nothing to replay on the real code (proof obligation / correspondence record)")
         return True
-    case = {"dgm1": _parse_dgm(c["dgm1"]), "dgm2": _parse_dgm(c["dgm2"]), "kinds": c.get("kinds", ["list", "list"])}
+    case = {"dgm1": _parse_dgm(c["dgm1"]), "dgm2": _parse_dgm(c["dgm2"]), "kinds": c.get("kinds", ["list", "list"]),
+            "eforms": c.get("eforms", [0, 0])}
     code = run_code(case)
+    if "closed_form" in c:
+        # a `large_closed_form` record (1000+ points): the specification value is known in closed form and stored —
+        # no 2000x2000 exact assignment is solved here
+        want = float(c["closed_form"])
+        tol = float(c.get("closed_form_tol", 1e-9 * 150.0 * max(len(case["dgm1"]), len(case["dgm2"]), 1)))
+        ok = code[0] == "ok" and math.isfinite(code[1]) and abs(code[1] - want) <= tol
+        print("code:", code[:2], "\nclosed-form minimum over partial matchings: %r (tolerance %r)" % (want, tol))
+        return ok
     fails, why = property_fails(case, code)
     print("code:", code, "\n" + why)
     return not fails
@@ -832,10 +927,12 @@ MANIFEST = {
             "int32/int16/uint8/int64 arrays, Python ints) — the model is dtype-free.",
     "note": "Trusted: Lean kernel + Mathlib (axioms propext/Classical.choice/Quot.sound); the correspondence harness; scipy's "
             "linear_sum_assignment contract (certified per run, not proved); np.sqrt of the summed squared coordinate differences = "
-            "Euclidean distance up to rounding (tolerance 1e-9*scale; the matrix handed to scipy is compared ENTRY BY ENTRY with the "
+            "Euclidean distance up to rounding (tolerance 1e-9*scale, and never more than 1e-9*|value| + 32 eps*scale; the matrix handed to scipy is compared ENTRY BY ENTRY with the "
             "model's: same infinity pattern, exact where the arithmetic is exact); IEEE rounding is outside the theorems. [T] lsa_contract: every "
             "matrix the real routine hands to scipy is observed in-process and the assignment scipy returned is compared with that "
-            "matrix's optimum, certified by the same Lean-checked dual certificate.",
+            "matrix's optimum, certified by the same Lean-checked dual certificate. A failing input is claimed only inside the statement's "
+            "quantifier (finite births, deaths finite or +inf): the call returns, the value is within tolerance of the specification value and "
+            "SOME warning is raised when a +inf death is dropped; warning wording and NaN/-inf deaths are compared with the model only.",
     "technique": "Lean 4 theorems over a hand-written model with the solver as a contract parameter + differential correspondence "
                  "with Lean-verified dual certificates",
 }
